@@ -82,25 +82,25 @@ Section Bad.
   Qed.
 End Bad.
 
-Theorem load_identity_mismatch p S c0 r sx e ofs :
-  p_startxref p = Some sx -> chain (p_file p) (p_flen p) [] sx S c0 -> NoDup (map s_off S) ->
+Theorem load_identity_mismatch p S r sx e ofs :
+  p_startxref p = Some sx -> chain (p_file p) (p_flen p) sx S -> NoDup (map s_off S) ->
   match S with s :: _ => s_root s = Some r | [] => False end ->
-  In e (first_per_key (all_ents S)) -> x_st e = XInUse ofs -> ctx_get c0 (x_id e) = None ->
+  In e (first_per_key (all_ents S)) -> x_st e = XInUse ofs ->
   (forall it nx v, find (p_file p) ofs = Some (it, nx) -> item_val it = Some (x_id e, v) -> False) ->
   load p = Rejected.
 Proof.
-  intros Hs Ch Ho Hr He St G0 Hmis.
+  intros Hs Ch Ho Hr He St Hmis.
   unfold load, load_fuel. rewrite Hs. destruct (negb (p_magic p)); [reflexivity|].
   destruct (negb (sx <? p_flen p)%N); [reflexivity|].
   assert (Hroot : match (None : option obj) with Some r0 => Some r0 | None => match S with s :: _ => s_root s | [] => None end end = Some r).
   { destruct S; [destruct Hr | exact Hr]. }
-  rewrite (walk_chain _ _ [] sx S c0 Ch (Datatypes.S (Datatypes.S (len (p_file p)))) [] [] [] None r Ho (fun _ _ H => H) Hroot).
-  2:{ pose proof (chain_length _ _ _ _ _ _ Ch Ho). unfold len. lia. }
+  rewrite (walk_chain _ _ sx S Ch (Datatypes.S (Datatypes.S (len (p_file p)))) [] [] [] None r Ho (fun _ _ H => H) Hroot).
+  2:{ pose proof (chain_length _ _ _ _ Ch Ho). unfold len. lia. }
   cbn [app]. rewrite merge_newest_first. unfold parse_objects.
   set (I := info_from_xref_entries (first_per_key (all_ents S))).
   assert (ND : NoDup (map fst (files I))) by (apply files_info_NoDup, first_per_key_NoDup).
   assert (Hin : In (x_id e, ofs) (files I)) by (apply files_info_iff; exists e; auto).
-  destruct (pass1_bad (p_file p) (p_flen p) (files I) (x_id e) ofs ND Hin Hmis I c0 [] [] (fun _ _ H => H)) as [E1|(c1 & os & s1 & E1 & G1 & Hs1 & Sub1)];
-    [intros ? [] | left; exact Hin | exact G0 | rewrite E1; reflexivity |].
+  destruct (pass1_bad (p_file p) (p_flen p) (files I) (x_id e) ofs ND Hin Hmis I [] [] [] (fun _ _ H => H)) as [E1|(c1 & os & s1 & E1 & G1 & Hs1 & Sub1)];
+    [intros ? [] | left; exact Hin | reflexivity | rewrite E1; reflexivity |].
   rewrite E1. rewrite (pass2_bad (p_file p) (p_flen p) (files I) (x_id e) ofs ND Hin Hmis s1 c1 Sub1 Hs1 G1). reflexivity.
 Qed.
